@@ -35,6 +35,7 @@ def run(ctx: Ctx) -> None:
     orbits.rule_automorph(ctx)
     orbits.rule_iso_finder_bounds(ctx)
     orbits.rule_distinct_sources(ctx)
+    orbits.rule_labelled_equality(ctx)
     shapes.rule_relabel_form(ctx)
     tables.rule_api_numpy(ctx, [RELABEL], advisory_rels=(["graphiq/noise/time_depend_noise.py", "graphiq/io.py",
                                                          "graphiq/data_collection/correlation_module.py"]
@@ -44,6 +45,8 @@ def run(ctx: Ctx) -> None:
 
 
 KNOCKOUTS = [
+    Knockout("equal-graphs-compares-attributes", RELABEL, sub_once("    return np.array_equal(adj1, adj2)\n\n\ndef _compare_graphs_visual", "    return nx.utils.graphs_equal(g1, g2)\n\n\ndef _compare_graphs_visual"), "cmp.labelled-graphs", "graphs_equal"),
+    Knockout("equal-graphs-own-node-orders", RELABEL, sub_once("    adj2 = (nx.to_numpy_array(g2, nodelist=node_list)).astype(bool)", "    adj2 = (nx.to_numpy_array(g2)).astype(bool)"), "cmp.labelled-graphs", "no common node order"),
     Knockout("relabel-map-swapped", "graphiq/utils/relabel_module.py", sub_once("    GM = isomorphism.GraphMatcher(g1, g2)", "    GM = isomorphism.GraphMatcher(g2, g1)"), "relabel.map-direction", "swapped"),
     Knockout("relabel-map-identity", "graphiq/utils/relabel_module.py", sub_once('return {**{-1: "self"}, **dict(zip(g1.nodes(), g2.nodes()))}', 'return {**{-1: "self"}, **dict(zip(g1.nodes(), g1.nodes()))}'), "relabel.map-self", "not the position pairing"),
     Knockout("dedup-against-tail", RELABEL, sub_once("check_isomorphism(g_lc, orbit_list, _only_auto=with_iso)", "check_isomorphism(g_lc, orbit_list[-new_graphs:], _only_auto=with_iso)"), "distinct.source", "duplicate test against part"),
